@@ -144,7 +144,7 @@ func NewModel(p *Program, reg *Registry) *Model {
 		return m
 	}
 	get := func(n string) *types.Interface {
-		o := tt.Types.Scope().Lookup(n)
+		o := tt.Types.Scope().Lookup(curTypeName(tt.PkgPath, n))
 		if o == nil {
 			m.Problems = append(m.Problems, "anchor missing: ttlv."+n)
 			return nil
@@ -250,11 +250,11 @@ func wrapperProbe(sf *ssa.Function, suffix string) []string {
 			flagsOf(x.X, d+1, out)
 		case *ssa.Field:
 			if typeName(x.X.Type()) == "fieldInfo" {
-				out[derefStruct(x.X.Type()).Field(x.Field).Name()] = true
+				out[fname(derefStruct(x.X.Type()).Field(x.Field))] = true
 			}
 		case *ssa.FieldAddr:
 			if typeName(x.X.Type()) == "fieldInfo" {
-				out[derefStruct(x.X.Type()).Field(x.Field).Name()] = true
+				out[fname(derefStruct(x.X.Type()).Field(x.Field))] = true
 			}
 		case *ssa.Phi:
 			for _, e := range x.Edges {
